@@ -29,13 +29,17 @@ def gen_chain(rng, length):
         own = []
         for k in rng.sample(KEYS, rng.randint(0, 3)):
             vid[0] += 1
-            kind = rng.choice(["int", "int", "str", "nd", "none"])
+            kind = rng.choice(["int", "int", "str", "nd", "none", "series", "df"])
             if kind == "int":
                 desc = {"k": "int", "v": vid[0]}
             elif kind == "str":
                 desc = {"k": "str", "v": "v%d" % vid[0]}
             elif kind == "nd":
                 desc = {"k": "nd", "v": [vid[0], 0], "dtype": "int64", "shape": [2]}
+            elif kind == "series":
+                desc = {"k": "series", "v": [vid[0], 0], "dtype": "int64"}
+            elif kind == "df":
+                desc = {"k": "df", "v": [["c", [vid[0], 0]], ["d", ["x", "y"]]]}
             else:
                 desc = {"k": "none"}
                 vid[0] -= 1
@@ -52,6 +56,11 @@ def value_id(v):
         return int(v[1:])
     if isinstance(v, np.ndarray):
         return int(v[0])
+    import pandas as pd
+    if isinstance(v, pd.Series):
+        return int(v.iloc[0])
+    if isinstance(v, pd.DataFrame):
+        return int(v["c"].iloc[0])
     return int(v)
 
 
@@ -98,6 +107,16 @@ def run(tier, seed):
             ondisk = [rng.random() < 0.25 for _ in chain]
             dd = [rng.random() < 0.3 for _ in chain]          # staged in a dictionary with a default factory
             cache = rng.random() < 0.6
+            # in some cached cases the memory cache is never emptied: every parent is the object the cache kept when the
+            # parent link was WRITTEN (not one re-read from the files)
+            keep_written = cache and ci % 3 == 1
+            if keep_written and len(chain) > 1:
+                # every link holds a pandas member (the memory cache keeps its own copy of those)
+                for li, own in enumerate(chain):
+                    if not any(d["k"] in ("series", "df") for _, d, _ in own):
+                        free = [k for k in KEYS if k not in [x[0] for x in own]]
+                        vid_new = 1000 + 10 * ci + li
+                        own.append([free[0], {"k": "series", "v": [vid_new, 0], "dtype": "int64"}, vid_new])
             path = os.path.join(scratch, "pstore%d" % ci)
 
             def backend():
@@ -112,6 +131,8 @@ def run(tier, seed):
             # build the chain link by link, choosing for every link where its parent object comes from
             for i in range(len(chain)):
                 prov = "none" if i == 0 else rng.choice(["fresh", "disk", "cache"] if cache else ["fresh", "disk"])
+                if keep_written and i > 0:
+                    prov = "cache-as-written"
                 if i > 0 and prov == "fresh":
                     # the parent was never called before in this process: un-memoize it and everything it made
                     pass
@@ -146,13 +167,21 @@ def run(tier, seed):
                         if pvals != overlay(chain, i - 1):
                             rep.violation("C17:parent-changed-by-child", "after storing link %d its parent reads %r instead of %r" % (i, pvals, overlay(chain, i - 1)), meta_i)
                     reads["second call"] = read_partition(fnmod.pnode(spec))
-                    if cache:
-                        b._memory_cache.forget_everything()
-                    reads["from disk"] = read_partition(fnmod.pnode(spec))
+                    if not keep_written:
+                        if cache:
+                            b._memory_cache.forget_everything()
+                        reads["from disk"] = read_partition(fnmod.pnode(spec))
                     b2 = backend()
                     fnlib.set_env(m, scratch, {"fc": (b2, None)})
+                    tr.clear()
                     reads["fresh backend"] = read_partition(fnmod.pnode(spec))
+                    recomputed = [e for e in tr.execs() if e[1] == "pnode"]
                     fnlib.set_env(m, scratch, {"fc": (b, None)})
+                    if recomputed:
+                        # the memory cache of the first backend can hide that nothing reached the files
+                        rep.violation("C17:not-stored:%s" % prov, "a fresh backend over the same files had to execute %d bodies to produce link %d (parent from: %s): the partition had not been stored" % (len(recomputed), i, prov), meta_i)
+                        ok = False
+                        break
                     reads["first-call value, afterwards"] = read_partition(first)
                 except Exception as e:
                     rep.violation("C17:read-raised:%s" % type(e).__name__, "reading link %d back raised %s: %s" % (i, type(e).__name__, str(e)[:150]), meta_i)
@@ -163,6 +192,8 @@ def run(tier, seed):
                 if rng.random() < 0.6:
                     try:
                         how_inner = rng.choice(["disk", "cache"] if cache else ["disk"])
+                        if keep_written:
+                            how_inner = "cache"
                         if how_inner == "disk" and cache:
                             b._memory_cache.forget_everything()
                         rspec = {"id": 900000 + ci * 10 + i, "inner": spec, "depth": rng.choice([0, 0, 1])}
